@@ -21,7 +21,9 @@
 // memory, so a crash / sanitizer report / time-out is attributed to exactly that input:
 //   @crash sig=<n> ...   @asan <summary>   @timeout   @exit code=<n>
 // and a fresh worker carries on with the next case.  A per-case CPU-time alarm (PARSE_DRIVER_CPU_MS, default 3000)
-// and a wall-clock backstop (x10) turn a hang into a result.
+// and a wall-clock backstop (x10) turn a hang into a result.  After PARSE_DRIVER_MAX_ABNORMAL (default 25) abnormal results in one
+// run the remaining cases are answered "@skipped" without being run (a defect that fails on thousands of enumerated
+// inputs must not cost thousands of sanitizer reports).
 #include "llbuild/Basic/FileSystem.h"
 #include "llbuild/Basic/ShellUtility.h"
 #include "llbuild/BuildSystem/BuildDescription.h"
@@ -308,6 +310,7 @@ struct Shared {
 };
 static Shared* sh;
 static long cpuMs = 3000;
+static long maxAbnormal = 25;
 
 static void flushShared() {
   size_t off = 0;
@@ -355,6 +358,8 @@ static std::string sanitizerSummary(FILE* errf) {
 
 int main(int argc, char** argv) {
   if (const char* e = getenv("PARSE_DRIVER_CPU_MS")) cpuMs = atol(e);
+  if (const char* e = getenv("PARSE_DRIVER_MAX_ABNORMAL")) maxAbnormal = atol(e);
+  long abnormal = 0;
   std::vector<std::string> lines;
   { std::string line; while (std::getline(std::cin, line)) lines.push_back(line); }
   sh = (Shared*)mmap(nullptr, sizeof(Shared), PROT_READ | PROT_WRITE, MAP_SHARED | MAP_ANONYMOUS, -1, 0);
@@ -362,6 +367,11 @@ int main(int argc, char** argv) {
   sh->cur = -1; sh->done = 0; sh->len = 0;
   long n = (long)lines.size();
   while (sh->done < n) {
+    if (abnormal >= maxAbnormal) {
+      for (long i = sh->done; i < n; ++i) appendResult("@skipped");
+      flushShared();
+      break;
+    }
     FILE* errf = tmpfile();
     if (!errf) { perror("tmpfile"); return 2; }
     fflush(stdout);
@@ -400,6 +410,7 @@ int main(int argc, char** argv) {
       appendResult(r);
       flushShared();
       sh->done = bad + 1;
+      ++abnormal;
     }
     fclose(errf);
   }
